@@ -1094,6 +1094,28 @@ class Interp:
             raise Unsupported(f"binary {op} on {l!r}, {r!r}")
         if isinstance(l, dict) and isinstance(r, dict) and op == "|":
             return {**l, **r}
+        if op in ("&", "|", "-", "^") and self._setlike(l) and self._setlike(r) and (any(isinstance(x, SObj) for x in l) or any(isinstance(x, SObj) for x in r)):
+            # set algebra over heap objects: members are compared with the objects' own equality
+            L, R = list(l), list(r)
+
+            def eq(a, b):
+                if a is b:
+                    return True
+                if isinstance(a, SObj) and isinstance(b, SObj):
+                    c = self.cmp("==", a, b)
+                    if isinstance(c, bool):
+                        return c
+                    raise Unsupported("symbolic equality between set members")
+                return not isinstance(a, SObj) and not isinstance(b, SObj) and not is_symbolic(a) and not is_symbolic(b) and a == b
+            inter = [a for a in L if any(eq(a, b) for b in R)]
+            if op == "&":
+                return set(inter)
+            if op == "-":
+                return {a for a in L if not any(eq(a, b) for b in R)}
+            only_r = [b for b in R if not any(eq(a, b) for a in L)]
+            if op == "|":
+                return set(L) | set(only_r)
+            return {a for a in L if not any(eq(a, b) for b in R)} | set(only_r)
         if op == "+" and type(l) is list and type(r) is list:
             if inplace:
                 l.extend(r)          # `xs += ys` mutates xs (aliases see it)
@@ -1306,6 +1328,10 @@ class Interp:
         if isinstance(coll, ClassVal) and coll.enum_kind:
             return isinstance(x, (EnumVal, FlagVal)) and x.cls is coll
         raise Unsupported(f"`in` on {coll!r}")
+
+    @staticmethod
+    def _setlike(v):
+        return isinstance(v, (set, frozenset)) or type(v).__name__ == "dict_keys"
 
     def truth_value(self, v):
         """bool(v) without forking when v is already boolean-like."""
